@@ -2459,6 +2459,13 @@ impl<'input, T: Input> Scanner<'input, T> {
                         "illegal placement of ':' indicator",
                     ));
                 }
+                // As in block context, the implicit key of a single pair is limited in length.
+                if sk.mark.index + 1024 < start_mark.index {
+                    return Err(ScanError::new_str(
+                        start_mark,
+                        "implicit key of a flow sequence pair is longer than 1024 characters",
+                    ));
+                }
                 self.insert_token(
                     sk.token_number - self.tokens_parsed,
                     Token(Span::empty(sk.mark), TokenType::FlowMappingStart),
